@@ -273,6 +273,9 @@ pub fn op_props(op: &Value, pre_full: bool, exp_ret: &Value) -> String {
         "fmt" | "s_fmt" => p.push("C19"),
         "clone" | "clone_from" | "s_clone_from" => p.push("C15"),
         "serde" => p.push("C20"),
+        // what a hand-made stream decodes to is fixed by no listed property (only the decoded container's
+        // own well-formedness and the ownership of the objects are, and those are judged separately)
+        "de_items" => p.push("DRIFT"),
         "s_insert" | "s_replace" => {
             p.extend(["C07", "C12"]);
             if pre_full {
@@ -357,6 +360,10 @@ fn judge(
     if !ok {
         if !t["ar"].is_null() && ret_matches(ret, &t["ar"]).0 {
             use_alt = true;
+        } else if op["name"] == "de_items" {
+            // no listed property fixes what a hand-made stream decodes to: a disagreement with the
+            // specification's "fold of inserts" is conformance drift, not a violation
+            *drift = Some(format!("decoding a hand-made stream: observed {ret} but the model says {}", t["r"]));
         } else {
             let pr = identity_only(ret, &t["r"], false).map(|x| x.to_string()).unwrap_or(props.clone());
             fails.push(Fail { props: pr, msg: format!("return value: observed {ret} but the model says {}", t["r"]) });
